@@ -21,6 +21,77 @@ def fname(f):
     return f.qname + ('<%s>' % f.targs if f.targs else '')
 
 
+_COMPL = {'<': '>=', '>=': '<', '<=': '>', '>': '<=', '==': '!=', '!=': '=='}
+_SWAP = {'<': '>', '>': '<', '<=': '>=', '>=': '<=', '==': '==', '!=': '!='}
+
+
+def _rel_atom(f, cond):
+    """(flip, (idA, op, idB)) of a comparison between two local variables, operands ordered by id; None otherwise."""
+    c = f.strip(f.node(cond) if not isinstance(cond, dict) else cond)
+    flip = False
+    while c is not None and c['k'] == 'UnaryOperator' and c.get('op') == '!':
+        flip = not flip
+        c = f.strip(f.ch(c)[0])
+    if c is None or c['k'] != 'BinaryOperator' or c.get('op') not in _COMPL:
+        return None
+    a, b = f.strip(f.ch(c)[0], casts=True), f.strip(f.ch(c)[1], casts=True)
+    if a is None or b is None or a['k'] != 'DeclRefExpr' or b['k'] != 'DeclRefExpr' or not a.get('id') or not b.get('id'):
+        return None
+    op = c['op']
+    if a['id'] > b['id']:
+        a, b, op = b, a, _SWAP[op]
+    return flip, (a['id'], op, b['id'])
+
+
+def _search_exhausted_exit(f, ret):
+    """True when the return `ret` is entered only through the outcome `index beyond bound` of a test complementary to the
+    bound test of a search loop of f (a natural loop that compares an element with a parameter of f): the function looked
+    at every element and did not find what its precondition says is there."""
+    from yk.flow import natural_loops, block_of
+    rb = block_of(f, ret)
+    if rb is None:
+        return False
+    if isinstance(rb, tuple):
+        rb = rb[0]
+    preds = f.preds().get(rb, [])
+    if len(preds) != 1:
+        return False
+    pb, idx = preds[0]
+    t = f.blocks[pb].term
+    if not t or 'cond' not in t or len(f.blocks[pb].succ) != 2:
+        return False
+    ra = _rel_atom(f, t['cond'])
+    if ra is None:
+        return False
+    flip, (a, op, b) = ra
+    truth = (idx == 0) != flip
+    holds = (a, op if truth else _COMPL[op], b)       # the relation that holds on the edge into the return
+    params = {p_['id'] for p_ in f.params}
+    for h, body in natural_loops(f).items():
+        if pb in body:
+            continue
+        uses_param = any(y['k'] == 'DeclRefExpr' and y.get('id') in params
+                         for bb in body for e_ in f.blocks[bb].elems for y in [f.node(e_)]
+                         if y['k'] == 'DeclRefExpr')
+        if not uses_param:
+            continue
+        for bb in body:
+            t2 = f.blocks[bb].term
+            if not t2 or 'cond' not in t2 or len(f.blocks[bb].succ) != 2:
+                continue
+            r2 = _rel_atom(f, t2['cond'])
+            if r2 is None:
+                continue
+            fl2, (a2, op2, b2) = r2
+            # the relation under which the loop goes on (successor 0 stays in the loop)
+            stay = 0 if f.blocks[bb].succ[0] in body else 1
+            tr2 = (stay == 0) != fl2
+            cont = (a2, op2 if tr2 else _COMPL[op2], b2)
+            if (a2, b2) == (a, b) and holds[1] == _COMPL[cont[1]]:
+                return True
+    return False
+
+
 def rule_bal(S, la):
     S.rule('R-BAL', 'for every function of the writer call graph the set of locks released-that-were-held-at-entry '
                     'and the set of locks acquired-and-still-held is the same on every exit (the three named '
@@ -42,6 +113,10 @@ def rule_bal(S, la):
         considered = []
         for e in effs:
             exempt = e['node'] is None and f.qname in UNREACHABLE_TAIL_FUNCS
+            if not exempt and f.qname in UNREACHABLE_TAIL_FUNCS and not e['rel'] and not e['keep'] and \
+                    e['node'] is not None and _search_exhausted_exit(f, e['node']):
+                # the same tail written as an early return: `if (i > n) return;` behind the search loop `i <= n`
+                exempt = True
             if exempt:
                 continue
             considered.append(e)
